@@ -1,4 +1,5 @@
 mod conc;
+mod crosske;
 mod enc;
 mod eval;
 mod extkey;
@@ -331,6 +332,12 @@ fn main() {
             }
             println!("{}", json!({"executions": o.0, "values_checked": o.1, "term_evaluations": o.2,
                 "suites": sel.iter().map(|s| s.name()).collect::<Vec<_>>(), "violations": vio, "samples": o.4}));
+        }
+        "crosske" => {
+            // C14: KE-independent values across suites sharing an OPRF suite
+            let sel = select_suites(&all, &args.get("suites", "all"), seed);
+            let profs = conc::profiles(seed, args.get("tier", "quick") != "quick");
+            println!("{}", crosske::run(&sel, seed, &profs));
         }
         "group" => {
             // C19
